@@ -11,6 +11,7 @@ import (
 	"testing"
 
 	pipeline "github.com/buildkite/go-pipeline"
+	"github.com/buildkite/go-pipeline/ordered"
 	"github.com/buildkite/go-pipeline/signature"
 	"gopkg.in/yaml.v3"
 	"pgregory.net/rapid"
@@ -129,6 +130,28 @@ func rebuildAny(t *rapid.T, v any) any {
 			out[i] = rebuildAny(t, x[i])
 		}
 		return out
+	case *ordered.MapSA:
+		// the same entries in the same order, reached through another editing history: a throw-away
+		// entry set in between and removed again, an entry removed and set again at the end
+		if x == nil {
+			return x
+		}
+		out := ordered.NewMap[string, any](rapid.IntRange(0, 8).Draw(t, "ocap"))
+		junkAt := rapid.IntRange(0, x.Len()).Draw(t, "junkat")
+		i := 0
+		x.Range(func(k string, val any) error {
+			if i == junkAt {
+				out.Set("\x00throw-away", "gone")
+			}
+			out.Set(k, rebuildAny(t, val))
+			i++
+			return nil
+		})
+		if i == junkAt {
+			out.Set("\x00throw-away", "gone")
+		}
+		out.Delete("\x00throw-away")
+		return out
 	}
 	return v
 }
@@ -159,6 +182,9 @@ func respell(t *rapid.T, w world) (world, []string) {
 				how = append(how, "config-empty-to-nil")
 			}
 		}
+	}
+	if m := b.Step.Matrix; m != nil && len(m.RemainingFields) > 0 {
+		m.RemainingFields = rebuildAny(t, m.RemainingFields).(map[string]any)
 	}
 	if len(b.Step.Env) == 0 && rapid.Bool().Draw(t, "envflip") {
 		if b.Step.Env == nil {
@@ -703,6 +729,22 @@ var differs = []differ{
 		m.Adjustments[0].With[rapid.SampledFrom(ks).Draw(t, "withkey")] += "!"
 		return true
 	}},
+	{"ordered-map-entry-removed-inside-signed-content", func(t *rapid.T, w *world) bool {
+		var om *ordered.MapSA
+		if len(w.Step.Plugins) > 0 {
+			if cfg, ok := w.Step.Plugins[0].Config.(map[string]any); ok {
+				om, _ = cfg["ordered"].(*ordered.MapSA)
+			}
+		}
+		if om == nil && w.Step.Matrix != nil {
+			om, _ = w.Step.Matrix.RemainingFields["ordered"].(*ordered.MapSA)
+		}
+		if om == nil || om.Len() < 4 {
+			return false
+		}
+		om.Delete(fmt.Sprintf("ok%d", rapid.IntRange(0, om.Len()-1).Draw(t, "omdel")))
+		return true
+	}},
 	{"matrix-extra-key-change", func(t *rapid.T, w *world) bool {
 		// a key of the matrix itself, next to setup / adjustments or next to a plain value list
 		m := w.Step.Matrix
@@ -759,6 +801,29 @@ func TestPropPayload(t *testing.T) {
 		g := sgen.New(t, sgen.Opts{BigMaps: rapid.IntRange(0, 2).Draw(t, "big") == 0})
 		step, canonOf := g.Step()
 		a := world{Step: step, Penv: g.EnvMap("penv", 4), Repo: g.RepoURL(), Canon: canonOf}
+		if rapid.IntRange(0, 3).Draw(t, "orderedinside") == 0 {
+			om := ordered.NewMap[string, any](0)
+			for i, c := 0, rapid.IntRange(4, 7).Draw(t, "omn"); i < c; i++ {
+				om.Set(fmt.Sprintf("ok%d", i), g.Str("omv"))
+			}
+			placed := false
+			if len(a.Step.Plugins) > 0 {
+				if cfg, ok := a.Step.Plugins[0].Config.(map[string]any); ok && cfg != nil && rapid.Bool().Draw(t, "omincfg") {
+					cfg["ordered"] = om
+					placed = true
+				}
+			}
+			if !placed {
+				if a.Step.Matrix == nil {
+					a.Step.Matrix = &pipeline.Matrix{Setup: pipeline.MatrixSetup{"": []string{"a", "b"}}}
+				}
+				if a.Step.Matrix.RemainingFields == nil {
+					a.Step.Matrix.RemainingFields = map[string]any{}
+				}
+				a.Step.Matrix.RemainingFields["ordered"] = om
+			}
+			rec.Class("order-preserving-map-inside-signed-content")
+		}
 		if len(a.Penv) > 0 && rapid.IntRange(0, 5).Draw(t, "casetwin") == 0 {
 			ks := make([]string, 0, len(a.Penv))
 			for k := range a.Penv {
